@@ -160,6 +160,14 @@ class LogicEval:
                         return False
                 continue
             if isinstance(st, ast.For):
+                # for op in diff.keys(): new_diff[op] = []      (loop form of {op: [] for op in diff.keys()})
+                if isinstance(st.target, ast.Name) and len(st.body) == 1 and isinstance(st.body[0], ast.Assign) and isinstance(st.body[0].targets[0], ast.Subscript) \
+                        and isinstance(st.body[0].value, ast.List) and not st.body[0].value.elts and norm(st.body[0].targets[0].slice) == st.target.id \
+                        and isinstance(st.body[0].targets[0].value, ast.Name) and isinstance(env.get(st.body[0].targets[0].value.id), dict) \
+                        and (self._diffobj(st.iter, env) is not None or (isinstance(st.iter, ast.Call) and isinstance(st.iter.func, ast.Attribute) and st.iter.func.attr == "keys"
+                                                                         and self._diffobj(st.iter.func.value, env) is not None)):
+                    env[st.body[0].targets[0].value.id] = {op: () for op in OPS}
+                    continue
                 if isinstance(st.iter, (ast.List, ast.Tuple)) and isinstance(st.target, ast.Name):
                     only_assert = all(isinstance(b, (ast.Assert, ast.Expr, ast.Pass)) and not _has_yield(b) for b in st.body)
                     if only_assert:
@@ -203,9 +211,18 @@ class LogicEval:
                     if isinstance(v, ast.DictComp) and isinstance(v.value, ast.List) and not v.value.elts:
                         env[t.id] = {op: () for op in OPS}
                         continue
+                    if isinstance(v, ast.Dict) and not v.keys and t.id not in env:
+                        env[t.id] = {}
+                        continue
                     if isinstance(v, ast.Dict) and all(isinstance(x, ast.List) and not x.elts for x in v.values):
                         env[t.id] = {op_const(k) or "?": () for k in v.keys}
                         continue
+                    if isinstance(v, ast.Dict) and v.keys and all(k is not None and op_const(k) for k in v.keys):
+                        # {Op.AFFECTED: diff[Op.REMOVED], Op.ADDED: [], ...}
+                        bs = [self._bucket(x, env) for x in v.values]
+                        if all(b_ is not None for b_ in bs):
+                            env[t.id] = {op_const(k): b_ for k, b_ in zip(v.keys, bs)}
+                            continue
                     b = self._bucket(v, env)
                     if b is not None:
                         env[t.id] = b
